@@ -208,7 +208,7 @@ def case_flags(C, n, m, beta, kappa, F, best):
             d = Fs + C[s, T] + kappa - F[T]
             if d > 1e-9 * (1 + abs(F[T])):
                 prunes = True
-            elif abs(d) <= 1e-9 * (1 + abs(F[T])) and not (s == 0 and T < 2 * m):
+            elif abs(d) <= 1e-9 * (1 + abs(F[T])):      # kept only because the pruning inequality is non-strict
                 tie = True
     return has_cp, prunes, tie
 
